@@ -68,6 +68,8 @@ def check(run, prog, tier):
     run.rule("C18-L", "text files keep the shape of what was exported (rank written, nothing squeezed on reading), and an axis "
                       "filled from a file is changed as a whole (points, start, step, length)", minimum=5)
     rule_L(run, prog)
+    run.rule("C18-N", "saving and loading leave the position of a file handed in by the caller alone (except under the test option)", minimum=4)
+    rule_N(run, prog)
     run.rule("C18-M", "the save/load entry points of every class call the routines they delegate to with arguments these take "
                       "(an override that passes keywords its parent does not know cannot import what was exported)", minimum=10)
     from .. import apiexist
@@ -76,6 +78,45 @@ def check(run, prog, tier):
     n_ = apiexist.check_call_arity(run, "C18-M", prog, entry, "the file cannot be read back by this class")
     if n_ < 10:
         raise AnalysisError("C18-M: only %d save/load entry points with resolved calls (14 confirmed)" % n_)
+
+
+def rule_N(run, prog):
+    """'Saving any saveable object and loading it returns an object with the same observable data': save() and
+    save_parcel() accept an open file and write the parcel at the position where the file stands, so several objects can be
+    saved one after another into one file and read back in the same order.  That works only if saving and loading leave
+    the position of the caller's file alone: a loader that rewinds the file it is given returns the first object for
+    every load.  In core/parcel.py and core/saveable.py a parameter is never repositioned (seek / truncate) except under
+    the explicit `test` option of save() and load(), which is documented to rewind."""
+    rid = "C18-N"
+    n = 0
+    for f in prog.all_functions():
+        if not (f.qualname.startswith("quantarhei.core.parcel.") or f.qualname.startswith("quantarhei.core.saveable.")) \
+                or not hasattr(f.node, "args"):
+            continue
+        params = {a.arg for a in f.node.args.args}
+        if not params & {"filename", "file", "fid", "f", "fname"}:
+            continue
+        n += 1
+        prog.consulted.add(f.relpath)
+        pm = parents_map(f.node)
+        bad = None
+        for c in walk_no_nested(f.node):
+            if isinstance(c, ast.Call) and isinstance(c.func, ast.Attribute) and c.func.attr in ("seek", "truncate") \
+                    and isinstance(c.func.value, ast.Name) and c.func.value.id in params:
+                under_test = False
+                node = c
+                while node is not None and node is not f.node:
+                    node = pm.get(node)
+                    if isinstance(node, ast.If) and "test" in {y.id for y in ast.walk(node.test) if isinstance(y, ast.Name)}:
+                        under_test = True
+                if not under_test:
+                    bad = c
+        run.obligation(rid, f.short, bad is None, key="stream-position-left-alone",
+                       message="%s repositions the file it was given (`%s`): objects saved one after another into one open file can "
+                                   "no longer be read back in order - every load starts at the same place and returns the same "
+                                   "(first) object" % (f.short, norm(bad) if bad else ""), loc=f.loc(bad) if bad else f.loc(f.node))
+    if n < 4:
+        raise AnalysisError("C18-N: only %d functions of the parcel machinery take a file" % n)
 
 
 def rule_L(run, prog):
